@@ -20,7 +20,7 @@ RULE = ("cases: a curve/surface/volume (rational or not, 2-D or 3-D) or a contai
 ASSUMPTIONS = ["nvmon.ref exact reference model for the input points; cos/sin of the angle from the math module (tolerance 1e-9*scale)"]
 FLOORS = {'quick': {'mapped-point': 3000, 'weights-unchanged': 150, 'inplace-semantics': 300, 'aggregate': 100},
           'thorough': {'mapped-point': 30000}}
-MANDATORY_TAGS = ['small-unit-of-length', 'container:pattern', 'partial-evaluate-before', 'container:shape-listed-twice', 'container:equal-twins', 'unclamped', 'coarse-precision', 'translate', 'rotate', 'scale', 'container', 'single', 'inplace', 'copy', 'rational', 'axis0', 'axis1', 'axis2',
+MANDATORY_TAGS = ['container:lifted-to-3d', 'small-unit-of-length', 'container:pattern', 'partial-evaluate-before', 'container:shape-listed-twice', 'container:equal-twins', 'unclamped', 'coarse-precision', 'translate', 'rotate', 'scale', 'container', 'single', 'inplace', 'copy', 'rational', 'axis0', 'axis1', 'axis2',
                   'dim2', 'pdim3', 'read-before-inplace', 'null-map', 'partially-iterated']
 TECHNIQUE = ("runtime monitoring: exact reference points of the input mapped by the exact affine map vs library evaluation of the "
              "result, plus object-identity / input-digest checks, under a seeded workload incl. containers")
@@ -53,6 +53,12 @@ def gen(rng, tier, shard, nshards):
                 sd_['ctrlpts'] = [[c * f_ for c in p_] for p_ in sd_['ctrlpts']]
             yield {'kind': 'transform', 'shapes': shp, 'container': nel > 0, 'op': rng.choice(['translate', 'rotate', 'scale', 'rotate']),
                    'inplace': rng.random() < 0.5, 'seed': rng.randrange(1 << 30), 'unit': f_}
+        if i % 6 == 1 and pdim in (1, 2):
+            # (fifth hunt) planar shapes put into a container and lifted to 3-D there (add_dimension, in place, element by element): the
+            # container holds 3-D shapes now - translated by 3-vectors, rotated about any of the three axes
+            shp = [G.rand_shape(rng, pdim, dim=2, clamped_only=True, maxextra=3, maxdeg=3) for _ in range(rng.randint(1, 3))]
+            yield {'kind': 'transform', 'shapes': shp, 'container': True, 'op': rng.choice(['translate', 'rotate', 'rotate']), 'lift': True,
+                   'inplace': rng.random() < 0.5, 'seed': rng.randrange(1 << 30)}
         if i % 6 == 2:
             # a pattern: copies of one shape a step apart (or doubled in size), transformed by exactly that step - afterwards element k
             # coincides with what element k + 1 was (distinct objects whose data become equal DURING the operation)
@@ -102,6 +108,12 @@ def check(case, ctx):
             ctx.tag('container:equal-twins')
         obj = cls(*elems)
         obj.sample_size = {1: 6, 2: 4, 3: 3}[pdim]
+        if case.get('lift'):
+            ctx.tag('container:lifted-to-3d')
+            for e_ in {id(x_): x_ for x_ in elems}.values():     # (a shape listed twice is lifted once)
+                operations.add_dimension(e_, inplace=True, offset=rng.choice([0.0, 1.0, -2.5]))
+            defs = [G.defn_of(e) for e in elems]
+            dim = 3
     else:
         obj = elems[0]
     sc = max(so.scale_of_defn(S) for S in defs)
